@@ -236,9 +236,10 @@ def halo_clause(model, rep, funcs):
            "(removed exactly once)", okc, detc, node=g.node, fn=g, clause="halo", stmt="chunk offset")
     # the margin is added to the depth that goes to dask
     bm: dict = {}
-    okm, whym = MF.all_of(["$p, $dep = self.get_params_and_depth(scale)", "$margin = self._depth_margin(**kwargs)", "$dep = tuple($x + $margin for $x in $dep)",
-                           "$clip = tuple(int(min($s, $y)) for $s, $y in zip($$img.shape, $dep))"], bm)
-    okm2 = bool(okm) and isinstance(depth, ast.Name) and depth.id == src(bm["clip"][1])
+    okm, whym = MF.all_of(["$p, $dep = self.get_params_and_depth(scale)", "$margin = self._depth_margin(**kwargs)", "$dep2 = tuple($x + $margin for $x in $$dep0)",
+                           "$clip = tuple(int(min($s, $y)) for $s, $y in zip($$img.shape, $dep2))"], bm)
+    canon_ = lambda e: ast.dump(MF._exp.canon(MF._exp.canon(e)))
+    okm2 = bool(okm) and canon_(depth) == canon_(bm["clip"][1])
     rep.ob("S17", f.anchor, "the overlap handed to dask is the picker's depth plus the maxima margin, clipped to the image size", okm2,
            whym or f"depth given to map_overlap is `{norm_src(depth)}`", node=f.node, fn=f, clause="halo", stmt="depth margin clipped")
     # (d) the overlap covers the support of the per-chunk filter and of the maxima filter
